@@ -1,2 +1,2 @@
 import ScVerif.C04.Drv
-def main : IO Unit := ScVerif.Line.runDriver ScVerif.C04.handle
+def main : IO Unit := ScVerif.Line.runDriverS ({} : ScVerif.C04.DrvState) ScVerif.C04.handleS
